@@ -29,13 +29,17 @@ pub const CLASSES: [&str; 9] = [
     "kb-shapes",
 ];
 
-pub fn cases_for(ctx: &Ctx) -> u64 {
-    match std::env::var("VERIF_LEG").unwrap_or_default().as_str() {
-        "asan" => ctx.cases(0, 20_000),
-        "valgrind" => ctx.cases(0, 600),
-        "miri" => ctx.cases(0, 12),
+pub fn cases_for_leg(ctx: &Ctx, leg: &str) -> u64 {
+    match leg {
+        "asan" => ctx.cases(0, 400_000),
+        "valgrind" => ctx.cases(0, 16_000),
+        "miri" => ctx.cases(0, 192),
         _ => ctx.cases(150_000, 6_000_000),
     }
+}
+
+pub fn cases_for(ctx: &Ctx) -> u64 {
+    cases_for_leg(ctx, std::env::var("VERIF_LEG").unwrap_or_default().as_str())
 }
 
 pub fn run(ctx: &Ctx) -> Report {
@@ -73,25 +77,44 @@ pub fn run(ctx: &Ctx) -> Report {
                 .collect();
             let mut confirmed = false;
             for c in started.iter().rev().take(64) {
-                // isolated re-run of one case in a fresh, otherwise idle subprocess
-                let out = std::process::Command::new(std::env::current_exe().unwrap())
+                // isolated re-run of one case in a fresh, otherwise idle subprocess, 60 s limit
+                use std::os::unix::process::ExitStatusExt;
+                let child = std::process::Command::new(std::env::current_exe().unwrap())
                     .args([ctx.property.as_str(), ctx.tier.name(), "--case", &c.to_string()])
                     .env("VERIF_SEED", ctx.seed.to_string())
                     .env("VERIF_OUT", format!("{}/.partials", ctx.out_dir))
-                    .output();
-                use std::os::unix::process::ExitStatusExt;
-                if let Ok(o) = out {
-                    if o.status.signal().is_some() {
-                        confirmed = true;
-                        extra_violations.push(Violation {
-                            subcheck: "process-died".into(),
-                            class: "worker killed by a signal".into(),
-                            observed: format!("signal {}", o.status.signal().unwrap()),
-                            case: *c,
-                            detail: json!({"stderr": String::from_utf8_lossy(&o.stderr).chars().take(2000).collect::<String>()}),
-                        });
-                        break;
+                    .stdout(std::process::Stdio::null())
+                    .stderr(std::process::Stdio::null())
+                    .spawn();
+                let mut child = match child {
+                    Ok(c) => c,
+                    Err(_) => continue,
+                };
+                let t0 = std::time::Instant::now();
+                let verdict: Option<(String, String)> = loop {
+                    match child.try_wait() {
+                        Ok(Some(st)) => break st.signal().map(|s| ("process-died".to_string(), format!("signal {s}"))),
+                        Ok(None) => {
+                            if t0.elapsed().as_secs() > 60 {
+                                let _ = child.kill();
+                                let _ = child.wait();
+                                break Some(("non-termination".to_string(), "a single case did not finish within 60 s in an idle subprocess".to_string()));
+                            }
+                            std::thread::sleep(std::time::Duration::from_millis(10));
+                        }
+                        Err(_) => break None,
                     }
+                };
+                if let Some((sub, obs)) = verdict {
+                    confirmed = true;
+                    extra_violations.push(Violation {
+                        subcheck: sub,
+                        class: "worker subprocess".into(),
+                        observed: obs,
+                        case: *c,
+                        detail: json!({"note": "re-run this case with ./check C07 --replay", "shard_stderr": e.stderr_tail.chars().take(1500).collect::<String>()}),
+                    });
+                    break;
                 }
             }
             if !confirmed {
@@ -647,4 +670,110 @@ pub fn one_case(ctx: &Ctx, case: u64, l: &mut Local) {
     if case < 9 {
         p.l.sample(case, || json!({"class": class, "note": "see rule; inputs are generated per class"}));
     }
+}
+
+// ------------------------------------------------------------------------------------------
+// Miri leg: only the part of the API that does not cross FFI (ring): holder constructor and
+// create_presentation without key binding. Seeds are produced natively by the parent.
+
+/// `sdjwt-mon C07-miri <seed> <shard> <nshards> <cases> <seeds.json> <partial.json>`
+pub fn miri_main(args: &[String]) {
+    let seed: u64 = args[2].parse().unwrap_or(1);
+    let shard: u64 = args[3].parse().unwrap_or(0);
+    let nshards: u64 = args[4].parse().unwrap_or(1);
+    let cases: u64 = args[5].parse().unwrap_or(1);
+    let seeds_text = std::fs::read_to_string(&args[6]).expect("seeds file");
+    let seeds: Vec<(String, Fmt)> = serde_json::from_str::<Value>(&seeds_text)
+        .ok()
+        .and_then(|v| v.as_array().cloned())
+        .unwrap_or_default()
+        .into_iter()
+        .map(|e| (e[0].as_str().unwrap_or("").to_string(), if e[1] == "JSON" { Fmt::Json } else { Fmt::Compact }))
+        .collect();
+    let mut l = Local::default();
+    let alphabet: Vec<char> = MUT_ALPHABET.chars().collect();
+    for case in 0..cases {
+        if case % nshards != shard {
+            continue;
+        }
+        api::begin_case();
+        let mut r = Rng::for_case(seed, STREAM + 1000, case);
+        let (tok, fmt) = r.pick(&seeds).clone();
+        let class = ["random-bytes", "char-mutated", "part-mutated", "holder-selections"][(case % 4) as usize];
+        l.count(&format!("class.{class}"));
+        let text: String = match class {
+            "random-bytes" => (0..r.usize(120)).map(|_| *r.pick(&alphabet)).collect(),
+            "char-mutated" => {
+                let mut chars: Vec<char> = tok.chars().collect();
+                for _ in 0..1 + r.below(3) {
+                    if chars.is_empty() {
+                        break;
+                    }
+                    let pos = r.usize(chars.len());
+                    match r.below(3) {
+                        0 => chars[pos] = *r.pick(&alphabet),
+                        1 => {
+                            chars.remove(pos);
+                        }
+                        _ => chars.insert(pos, *r.pick(&alphabet)),
+                    }
+                }
+                chars.into_iter().collect()
+            }
+            "part-mutated" => {
+                let mut parts: Vec<String> = tok.split('~').map(String::from).collect();
+                if parts.len() > 2 {
+                    let i = 1 + r.usize(parts.len() - 2);
+                    match r.below(3) {
+                        0 => {
+                            parts.remove(i);
+                        }
+                        1 => parts[i] = b64e(rand_json(&mut r, 2).to_string().as_bytes()),
+                        _ => {
+                            let x = parts[i].clone();
+                            parts.insert(i, x);
+                        }
+                    }
+                }
+                parts.join("~")
+            }
+            _ => tok.clone(),
+        };
+        let sel = if class == "holder-selections" {
+            match r.below(3) {
+                0 => rand_json(&mut r, 3),
+                1 => json!({"a": [true], "o": {"k": [false, {"z": {"q": true}}], "zz": {"y": 1}}, "arr": [[true, true, true], true, [1]], "nope": [true]}),
+                _ => json!({"a": true, "o": {"k": [true, {"z": true}]}, "arr": [[true, false], [true]]}),
+            }
+        } else {
+            json!({"a": true, "o": {"k": [true, {"z": true}]}, "arr": [[false, true], [true]], "u": true})
+        };
+        let mut p = Probe { case, class, l: &mut l };
+        let input = || json!({"format": fmt.name(), "text": text, "selection": sel});
+        let h = api::holder_new(&text, fmt);
+        p.judge("SDJWTHolder::new", &h, &input);
+        if let Outcome::Ok(mut h) = h {
+            let o = api::present(&mut h, &sel, None);
+            p.judge("create_presentation", &o, &input);
+            p.l.distinct(crate::rng::mix(gen::hash_str(class) ^ gen::hash_str(&text) ^ gen::shape_fingerprint(&sel)));
+            // a holder built from the (possibly narrowed) result
+            if let Outcome::Ok(pres) = o {
+                if let Outcome::Ok(mut h2) = api::holder_new(&pres, fmt) {
+                    let o2 = api::present(&mut h2, &json!({"arr": [[true, false, true], [false]], "o": {"k": [true, {"z": true}]}}), None);
+                    p.judge("create_presentation(narrowed)", &o2, &input);
+                }
+            }
+        }
+    }
+    for (k, v) in api::take_counts() {
+        l.add(&k, v);
+    }
+    std::fs::write(&args[7], l.to_json().to_string()).expect("write partial");
+}
+
+/// Native helper for the Miri leg: valid tokens (both formats, decoys on/off) as a JSON file.
+pub fn write_miri_seeds(path: &str) -> bool {
+    let s = make_seeds(&mut Rng(7));
+    let v: Vec<Value> = s.tokens.iter().filter(|(_, _, kb)| !kb).take(6).map(|(t, f, _)| json!([t, f.name()])).collect();
+    !v.is_empty() && std::fs::write(path, Value::Array(v).to_string()).is_ok()
 }
